@@ -11,14 +11,26 @@ import (
 
 // CheckWALReadable is the C15 oracle at node level, to be called after the incarnation has stopped (cleanly: Stop
 // flushes and syncs, so everything the incarnation logged is durable): a fresh reader over the whole WAL group
-// reaches the end of the log without an error and returns every record whose synced write this incarnation saw
-// acknowledged, in write order and with the same content; SearchForEndHeight finds every end-of-height marker among
+// reaches the end of the log without an error and returns every record whose synced write this or ANY EARLIER
+// incarnation saw acknowledged (Persist.WALAcked; "any later reader" includes readers after further crashes, repairs
+// and restarts), in write order and with the same content; SearchForEndHeight finds every end-of-height marker among
 // them. Returns "" or the description of the violation.
 func CheckWALReadable(n *PNode) string {
 	if n == nil || n.WAL == nil || n.P == nil {
 		return ""
 	}
-	acked := append([]consensus.WALMessage(nil), n.WAL.Acked...)
+	// the receive routine closes the WAL (flush, sync) on its way out; halt() waits only 5 s for it
+	if n.started && n.CS != nil {
+		select {
+		case <-n.CS.VerifDone():
+		case <-time.After(3 * time.Minute):
+			panic("VERIF-INFRA: stopped node's receive routine did not finish")
+		}
+	}
+	// the incarnation has stopped: its acknowledged records are in the persistent journal, behind those of all
+	// earlier incarnations
+	n.carryAcked()
+	acked, by := n.P.WALAcked, n.P.WALAckedBy
 	w, err := consensus.NewWAL(n.P.walFile())
 	if err != nil {
 		return fmt.Sprintf("the WAL cannot be opened for reading: %v", err)
@@ -62,8 +74,8 @@ func CheckWALReadable(n *PNode) string {
 	}
 	gr.Close()
 	if next < len(acked) {
-		return fmt.Sprintf("record %d of the %d records this incarnation wrote with an acknowledged sync (%T) is not returned by a later reader: "+
-			"the reader returned %d records and ended with %v", next, len(acked), acked[next], total, term)
+		return fmt.Sprintf("record %d of the %d records written with an acknowledged sync so far (%T, acknowledged in incarnation %d; now reading after incarnation %d) "+
+			"is not returned by a later reader: the reader returned %d records and ended with %v", next, len(acked), acked[next], by[next], n.ordinal, total, term)
 	}
 	if term != io.EOF {
 		return fmt.Sprintf("after a clean stop a reader over the WAL ends with %v (after %d records) instead of EOF", term, total)
